@@ -189,6 +189,14 @@ SetGetViol(s, attr, given, t) ==
          \cup V(t.tris = s.tris, "TrianglesUntouched")
          \cup VertexConsistentViol(t)
 \* after save + reload every getter returns what it returned before
+\* the first reload after writing through the API: the arrays that were given (exact values) come back, every array that
+\* existed still exists with the vertex count, triangles as given
+\* (tangents and bitangents belong to the normals in every format: a shape without normals cannot store them, and giving
+\* them to such a shape is outside the setters' precondition)
+Storable(t, f) == f \notin {"tangents", "bitangents"} \/ t.lens.normals > 0
+FirstReloadViol(t, r, W) ==
+    V(r.nv = t.nv /\ \A k \in 1..Len(W) : Storable(t, W[k]) => r.acid[W[k]] = t.acid[W[k]], "ReloadGivesBackWhatWasWritten")
+    \cup V(\A f \in DOMAIN t.lens : Storable(t, f) => r.lens[f] = t.lens[f], "ReloadKeepsEveryArray") \cup V(r.tris = t.tris, "ReloadSameTriangles")
 SameAfterReloadViol(t, r) == V(r.nv = t.nv /\ r.acid = t.acid, "ReloadSameVertexData") \cup V(r.tris = t.tris, "ReloadSameTriangles")
 
 (* ---------------- C12: LE <-> SE conversion, per shape ---------------- *)
